@@ -10,6 +10,7 @@ B=$(mktemp -d "$(pwd)/.build/setup.XXXXXX")
 trap 'rm -rf "$B"' EXIT
 bin/vinstr -repo "${VERIF_REPO:-/repo}" -out "$B/ov"
 go build -overlay "$B/ov/overlay.json" -o "$B/vcheck" ./cmd/vcheck
-go build -race -overlay "$B/ov/overlay.json" -o "$B/vcheck-race" ./cmd/vcheck
+bin/vinstr -hooks -repo "${VERIF_REPO:-/repo}" -out "$B/ovr"
+go build -race -tags c09 -overlay "$B/ovr/overlay.json" -o "$B/vcheck-race" ./cmd/vcheck
 "$B/vcheck" list >/dev/null
 echo "setup ok"
